@@ -60,7 +60,7 @@ var propertyCanaries = map[string][]string{
 	"C02": {"WORK.init", "FLAG.cholorder", "ARGS.callee", "FLAG.unset", "FLAG.unitdiag", "WORKSIZE.fallback", "OKFLOW.loopstatus", "FACTKIND.pair", "ARGS.order", "ARGS.lencheck", "ARGS.query", "LOOPIDX.unused", "OKFLOW.report", "STRIDE.vecinc", "WORKSIZE.min", "WORKSIZE.querylen"},
 	"C03": {"WORK.init", "FLAG.cholorder", "ARGS.callee", "FLAG.unset", "FLAG.unitdiag", "WORKSIZE.fallback", "GUARD.operand", "FLAG.uplomap", "STRIDE.veclda", "FACTKIND.pair", "LOOPIDX.origin", "ARGS.order", "ARGS.lencheck", "ARGS.query", "LOOPIDX.unused", "OKFLOW.report", "STRIDE.workld", "STRIDE.worknext", "WORKSIZE.min"},
 	"C04": {"MAT.access", "MAT.selfguard", "ZEROED.paths", "SWAP.cond", "STRIDE.contig", "TWIN.bounds", "NILRECV"},
-	"C05": {"MAT.guardorder", "FACT.alias", "OVERLAP.extent", "OVERLAP.guard", "MODSET.mat", "OVERLAP.symmetric", "TWIN.shadow"},
+	"C05": {"MAT.doublepass", "OVERLAP.lattice", "MAT.guardorder", "FACT.alias", "OVERLAP.extent", "OVERLAP.guard", "MODSET.mat", "OVERLAP.symmetric", "TWIN.shadow"},
 	"C06": {"FACT.alias", "FACT.failstate", "INIT.state", "ERR.overwrite", "ERR.swallow", "FACT.deadloop", "FACT.reuse", "FLAG.unset", "OKFLOW.condpath", "FACT.condafter", "FACTKIND.pair", "OKFLOW.use", "OKFLOW.cond", "OKFLOW.report", "FACT.normorder", "FACT.state", "FACT.condunit", "NILRECV"},
 	"C07": {"MAT.access", "ARGS.callee", "ARGS.ldcols", "ARGS.workquery", "ARGS.condlen", "ARGS.arms", "ARGS.strict", "ARGS.fullrow", "WORKSIZE.querylen", "ARGS.order", "ARGS.lencheck", "ARGS.query", "MAT.order", "ASM.window", "ASM.tail", "STRIDE.len"},
 	"C08": {"STRIDE.fullrange", "BETA.scaleguard", "CONSTFOLD.underflow", "ASM.lost", "PARAMUSE.read", "ASM.window", "ASM.tail", "ASM.units", "STRIDE.extent", "SIB.guards"},
@@ -107,6 +107,8 @@ func init() {
 		{"ZEROED.paths", "mat/triband.go", "Data:   useZeroed(t.mat.Data, n*(k+1)),", "Data:   use(t.mat.Data, n*(k+1)),", func() *core.Result { return zeroed.Run(def) }},
 		{"ARGS.condlen", "lapack/gonum/dlansy.go", "case (norm == lapack.MaxColumnSum || norm == lapack.MaxRowSum) && len(work) < n:", "case norm == lapack.MaxColumnSum && len(work) < n:", func() *core.Result { return flagx.RunCondLen(def, core.Pkgs("./lapack/gonum")) }},
 		{"ARGS.ldcols", "lapack/gonum/dgesvd.go", "wantua && ldu < m", "wantua && ldu < minmn", func() *core.Result { return flagx.RunLdCols(def, core.Pkgs("./lapack/gonum")) }},
+		{"MAT.doublepass", "mat/vector.go", "\t\t\t\tv.setVec(i, amat.Data[ia]*bmat.Data[ib])\n\t\t\t\tia += amat.Inc\n\t\t\t\tib += bmat.Inc\n\t\t\t}\n\t\t\treturn\n", "\t\t\t\tv.setVec(i, amat.Data[ia]*bmat.Data[ib])\n\t\t\t\tia += amat.Inc\n\t\t\t\tib += bmat.Inc\n\t\t\t}\n", func() *core.Result { return matargs.RunDoublePass(def) }},
+		{"OVERLAP.lattice", "mat/shadow.go", "off%inc == 0", "off&inc == 0", func() *core.Result { return overlap.RunExtent(def) }},
 		{"ARGS.workquery", "lapack/gonum/dgeqrf.go", "case len(work) < max(1, lwork):", "case len(work) < lwork:", func() *core.Result { return flagx.RunWorkQuery(def, core.Pkgs("./lapack/gonum")) }},
 		{"ARGS.callee", "lapack/gonum/dsytrd.go", "case len(d) < n:", "case len(d) < n-1:", func() *core.Result { return worksize.RunCallee(def, core.Pkgs("./lapack/gonum")) }},
 		{"GRAPHINV.together", "graph/simple/weighted_undirected.go", "\tif fm, ok := g.edges[fid]; ok {\n\t\tfm[tid] = e\n\t} else {", "\tif fm, ok := g.edges[fid]; ok {\n\t\t_, exists := fm[tid]\n\t\tfm[tid] = e\n\t\tif exists {\n\t\t\treturn\n\t\t}\n\t} else {", func() *core.Result { return graphinv.Run(def) }},
